@@ -300,6 +300,7 @@ type srvRun struct {
 	unread  func() int
 	replies map[uint16][]byte
 	holding bool // the Twrites are still held inside the implementation
+	prepTag uint16
 }
 
 // next waits for one frame from the server. It returns a hangErr after
@@ -323,8 +324,11 @@ func (r *srvRun) next(what string) ([]byte, error) {
 			idle = 0
 		}
 		lastEv = ev
+		if idle >= idlePolls && !go9pQuiescent("go9p.(*Conn).recv") {
+			idle = 0 // something is still runnable inside the library: keep waiting
+		}
 		if idle >= idlePolls {
-			return nil, fmt.Errorf("%s: the server has read the whole stream and is idle, but only %d of %d requests were answered (not answered, leaving aside requests the implementation still holds:%s)", what, len(r.replies), len(r.b.preds), r.missing())
+			return nil, fmt.Errorf("%s: the server has read the whole stream and is idle, but only %d of %d requests were answered (not answered, leaving aside requests the implementation still holds:%s)\ngoroutines blocked inside go9p:\n%s", what, len(r.replies), len(r.b.preds), r.missing(), hx.BlockedInGo9p())
 		}
 		if time.Since(start) > hangAfter {
 			return nil, hangErr(fmt.Sprintf("%s: %d of %d replies after %v", what, len(r.replies), len(r.b.preds), hangAfter))
@@ -366,10 +370,14 @@ func (r *srvRun) account(f []byte) error {
 }
 
 // batch sends the preparation requests (one chunk each) and waits for all replies.
+// Every preparation request has a tag of its own (61000..): a request whose tag
+// is still registered for an earlier one is started by that one's Respond, which
+// may be before the receive loop has reached the recv.dispatch point.
 func (r *srvRun) batch(ms []*ref9p.Msg) error {
 	want := map[uint16]uint8{}
-	for i, m := range ms {
-		m.Tag = uint16(i + 1)
+	for _, m := range ms {
+		m.Tag = r.prepTag
+		r.prepTag++
 		want[m.Tag] = m.Type + 1
 		if err := r.cl.Send(m); err != nil {
 			return fmt.Errorf("prologue: %v", err)
@@ -411,17 +419,21 @@ func runServer(c *Case, b *built, cuts []int) (*obs, error) {
 		}
 		cl.Close()
 	}()
-	r := &srvRun{c: c, b: b, sv: sv, ctl: ctl, cl: cl, unread: end.Unread, replies: map[uint16][]byte{}}
+	r := &srvRun{c: c, b: b, sv: sv, ctl: ctl, cl: cl, unread: end.Unread, replies: map[uint16][]byte{}, prepTag: 61000}
 	ver := "9P2000"
 	if c.Dotu {
 		ver = "9P2000.u"
 	}
+	cl.Timeout = hangAfter
 	rv, err := cl.Version(c.Msize, ver)
+	if err == rawc.ErrTimeout {
+		return nil, hangErr("prologue: Tversion unanswered")
+	}
 	if err != nil || rv.Type != ref9p.Rversion || rv.Msize != c.Msize || cl.Dotu != c.Dotu {
 		return nil, fmt.Errorf("prologue: Tversion: %v %+v", err, rv)
 	}
-	if ra, err := cl.Attach(0, ref9p.NOFID, "alice", "", 1001); err != nil || ra.Type != ref9p.Rattach {
-		return nil, fmt.Errorf("prologue: Tattach: %v %+v", err, ra)
+	if err := r.batch([]*ref9p.Msg{{Type: ref9p.Tattach, Fid: 0, Afid: ref9p.NOFID, Uname: "alice", Nuname: 1001}}); err != nil {
+		return nil, err
 	}
 	if err := r.batch(b.prepWalk); err != nil {
 		return nil, err
@@ -556,7 +568,8 @@ func runServer(c *Case, b *built, cuts []int) (*obs, error) {
 		return nil, fmt.Errorf("the implementation was invoked for %d tags, the stream has %d requests for it", len(o.enter), countImpl(b))
 	}
 	if len(o.dispatch) != len(b.preds) {
-		return nil, fmt.Errorf("%d requests dispatched, the stream has %d frames", len(o.dispatch), len(b.preds))
+		all := ctl.dispatched()
+		return nil, fmt.Errorf("%d requests dispatched, the stream has %d frames (dispatched since the start of the stream: %v; the five before: %v)", len(o.dispatch), len(b.preds), all[evStart:], all[max(0, evStart-5):evStart])
 	}
 	for i, p := range b.preds {
 		if o.dispatch[i] != p.who {
